@@ -17,9 +17,12 @@ func TestC06Termination(t *testing.T) {
 		if withByz {
 			gen.MaxExponent = 1.3 // the +40 bound needs deep rounds: keep time.Duration in range
 		}
+		if rapid.IntRange(0, map[bool]int{true: 11, false: 39}[vev.Thorough()]).Draw(t, "longchains") == 0 {
+			gen.MinPathLen, gen.MaxPathLen = 124, 136
+		}
 		profile := rapid.SampledFrom(vnet.Profiles).Draw(t, "profile")
 		if profile == "gate" || profile == "laggard" || profile == "rotlag" || profile == "rules" {
-			gen.MinPathLen = 1
+			gen.MinPathLen = max(gen.MinPathLen, 1)
 			gen.Unanimous = rapid.Bool().Draw(t, "gateunanimous")
 		}
 		cfg := vnet.GenConfig(t, gen)
